@@ -24,12 +24,12 @@ import (
 )
 
 type dnsProbe struct {
-	host     string
-	startAt  time.Duration
-	endAt    time.Duration
-	done     bool
-	outcome  string // ip | norecord | error | timeout
-	settled  bool // every task was drained after the resolver returned: the probe's result is recorded
+	host    string
+	startAt time.Duration
+	endAt   time.Duration
+	done    bool
+	outcome string // ip | norecord | error | timeout
+	settled bool   // every task was drained after the resolver returned: the probe's result is recorded
 }
 
 type dnsC18 struct {
@@ -47,6 +47,19 @@ func (w *dnsWorld) c18InstallProbeSeam() {
 		if !ok {
 			kind = T.Pick(3, 2, 1, 1)
 			c.script[host] = kind
+		}
+		if kind >= 2 {
+			// a resolver that failed answers the next time it is asked (derived, no draw): a
+			// host whose probe failed an odd number of times is found on the next probe
+			fails := 0
+			for _, o := range c.probes {
+				if o.host == host && o.done && (o.outcome == "error" || o.outcome == "timeout") {
+					fails++
+				}
+			}
+			if fails%2 == 1 {
+				kind = 0
+			}
 		}
 		p := &dnsProbe{host: host, startAt: s.Now()}
 		for _, o := range c.probes {
@@ -136,6 +149,23 @@ func (w *dnsWorld) c18Known(name int, qtype uint16) string {
 		}
 	}
 	return res
+}
+
+// c18FailedProbeOnly: non-empty (a description) if every probe for this string
+// has completed, was drained, and none of them gave a verdict (all failed).
+func (w *dnsWorld) c18FailedProbeOnly(sniffed string) string {
+	n, last := 0, ""
+	for _, p := range w.c18.probes {
+		if p.host != sniffed {
+			continue
+		}
+		if !p.done || !p.settled || (p.outcome != "error" && p.outcome != "timeout") {
+			return ""
+		}
+		n++
+		last = fmt.Sprintf("%d probes, the last one ended at %v with outcome %s", n, p.endAt, p.outcome)
+	}
+	return last
 }
 
 type dnsConn struct {
@@ -307,6 +337,7 @@ func dnsScenarioC18(w *dnsWorld) {
 				c.sniffed = "never-resolved.invalid"
 			}
 			done := false
+			expectProbe, probesBefore := "", 0
 			verifsim.Go("conn", func() {
 				defer func() { done = true }()
 				known, verified := "no", "no"
@@ -315,6 +346,10 @@ func dnsScenarioC18(w *dnsWorld) {
 					known = w.c18Known(c.name, dnsTypeOfAddr(c.dst.Addr()))
 				}
 				verified = w.c18Verified(c.sniffed)
+				probesBefore = len(w.c18.probes)
+				if c.mode == consts.DialMode_Domain && c.name >= 0 && !c.outbound.IsReserved() && known == "no" && verified == "no" {
+					expectProbe = w.c18FailedProbeOnly(c.sniffed)
+				}
 				t0 := s.Now()
 				target, reroute, dialIp := w.plane.ChooseDialTarget(c.outbound, c.dst, c.sniffed)
 				took := s.Now() - t0
@@ -339,6 +374,15 @@ func dnsScenarioC18(w *dnsWorld) {
 			// that takes a millisecond of simulated time has really waited for something
 			if !s.RunUntil(func() bool { return done }, 1) {
 				break
+			}
+			if expectProbe != "" && !s.Failed() {
+				// a probe that FAILED (resolver error / timeout) says nothing about the name:
+				// the next connection carrying it must have it probed again
+				s.Probe("dns.c18-connection-after-failed-probe")
+				s.Quiesce(func() bool { return true }, 0, 0)
+				if len(w.c18.probes) == probesBefore && !s.Failed() {
+					s.Failf("c18-failed-probe-suppresses-reprobing", "the only real-domain probe(s) for %q so far failed (%s), the name is not known otherwise, and a new connection carrying it at %v did not start a probe", c.sniffed, expectProbe, s.Now())
+				}
 			}
 			// let a probe that was triggered run to its end (or not: the next round may race it)
 			if T.Chance(2, 3) {
